@@ -1068,3 +1068,568 @@ mod c14_receiver {
         run_suite("c14_receiver", generate, exec);
     }
 }
+
+// ------------------------------------------------------------------------------------------------
+// C14 (d): atomic-level replay on the REAL `OrderingSender` (real `next`, real `Waiting` shards, real
+// `State`), through the single-access accessors `verif_*` (repo commit "verif hooks: test-only
+// single-access accessors on OrderingSender").
+//
+//   Request:  c14.atomic <cap> <ws> <rs> <base> <n> <closer> <schedule>
+//     n `Send` futures: task t (waker id t) has index base + t and a ws-byte message;
+//     closer = 1: task n is `Close { i: base + n }`; the stream is task 99 (`r` in the schedule).
+//     The first `base` indices are sent (and drained) by whole polls before the schedule starts.
+//     <schedule>: `.`-separated task ids / `r`; each token lets that task perform its NEXT shared
+//     access, in the program order of `next_op` / `Send::poll` / `Close::poll` / `take_next`:
+//       load | (curr > i: panic) | (curr = i: state critical section) | (curr < i: waiting.add)
+//       | next.fetch_add | waiting.wake(i + 1);   reader: state.take | next.load | waiting.wake(next)
+//   Response: `,`-separated `<obs>|<woken>` per token, then `;N=<next>;W=<woken_at of the 8 shards>`
+//     obs: L<curr> | X | C:R | C:P | X:<tag> | A+ | A- | F<prev> | K | T=<hex> | T:P | T:N | - (no-op)
+// ------------------------------------------------------------------------------------------------
+mod c14_atomic {
+    use std::{
+        collections::{BTreeMap, VecDeque},
+        num::NonZeroUsize,
+        sync::{Arc, Mutex},
+        task::{Context, Poll},
+    };
+
+    use typenum::{U1, U2, U3, U4};
+
+    use super::{
+        super::OrderingSender,
+        c14_msg::VMsg,
+        c14_wakers::{drain, waker},
+    };
+    use crate::ipa_verif::proto::*;
+
+    #[derive(Clone, Copy, Debug, PartialEq, Eq, Hash, PartialOrd, Ord)]
+    enum Pc {
+        Fresh,
+        WaitTurn,
+        WaitSpace,
+        Polling,
+        Loaded(usize),
+        Wrote,
+        Incd,
+        Done,
+        Panicked,
+    }
+
+    #[derive(Clone, Debug, PartialEq, Eq, Hash, PartialOrd, Ord)]
+    enum RPc {
+        Idle,
+        Took,
+        Loaded(usize),
+        Finished,
+    }
+
+    fn msg_for(i: usize, ws: usize) -> Vec<u8> {
+        (0..ws).map(|k| ((i * 7 + k * 3 + 1) % 256) as u8).collect()
+    }
+
+    fn state_write(s: &OrderingSender, m: &[u8], cx: &Context<'_>) -> Poll<()> {
+        macro_rules! go {
+            ($n:ty) => {{
+                let msg = VMsg::<$n>::from_slice(m);
+                s.verif_state_write::<VMsg<$n>>(&msg, cx)
+            }};
+        }
+        match m.len() {
+            1 => go!(U1),
+            2 => go!(U2),
+            3 => go!(U3),
+            4 => go!(U4),
+            n => panic!("harness: unsupported message size {n}"),
+        }
+    }
+
+    fn tag(msg: &str) -> String {
+        for t in ["writing on a closed stream", "Already closed", "Expect to keep messages of size"] {
+            if msg.contains(t) {
+                return format!("X:{t}");
+            }
+        }
+        format!("X:{msg}")
+    }
+
+    pub fn exec(req: &str) -> String {
+        let t: Vec<&str> = req.split(' ').collect();
+        assert_eq!(t[0], "c14.atomic");
+        let p = |s: &str| s.parse::<usize>().unwrap();
+        let (cap, ws, rs, base, n, closer) = (p(t[1]), p(t[2]), p(t[3]), p(t[4]), p(t[5]), p(t[6]));
+        let s = OrderingSender::new(
+            NonZeroUsize::new(cap).unwrap(),
+            NonZeroUsize::new(ws).unwrap(),
+            NonZeroUsize::new(rs).unwrap(),
+        );
+        let log = Arc::new(Mutex::new(Vec::new()));
+        let rw = waker(99, &log);
+        let rcx = Context::from_waker(&rw);
+        // prefix: indices 0..base by whole polls (same access order), drained by the reader
+        for j in 0..base {
+            let w = waker(1000 + j, &log);
+            let cx = Context::from_waker(&w);
+            let c = s.verif_next_load();
+            assert_eq!(c, j, "harness prefix");
+            assert!(state_write(&s, &msg_for(j, ws), &cx).is_ready(), "harness prefix: buffer full");
+            s.verif_next_fetch_add();
+            s.verif_waiting_wake(j + 1);
+            if let (Poll::Ready(_), _) = s.verif_state_take(&rcx) {
+                let nx = s.verif_next_load();
+                s.verif_waiting_wake(nx);
+            }
+        }
+        drain(&log);
+        let ntasks = n + closer;
+        let mut pcs = vec![Pc::Fresh; ntasks];
+        let wakers: Vec<_> = (0..ntasks).map(|k| waker(k, &log)).collect();
+        let mut rpc = RPc::Idle;
+        let mut out: Vec<String> = vec![];
+        if t[7] != "-" {
+            for tok in t[7].split('.') {
+                let obs: String = if tok == "r" {
+                    match rpc.clone() {
+                        RPc::Idle | RPc::Finished => match s.verif_state_take(&rcx) {
+                            (Poll::Ready(v), _) => {
+                                rpc = RPc::Took;
+                                format!("T={}", hex(&v))
+                            }
+                            (Poll::Pending, true) => {
+                                rpc = RPc::Finished;
+                                "T:N".into()
+                            }
+                            (Poll::Pending, false) => {
+                                rpc = RPc::Idle;
+                                "T:P".into()
+                            }
+                        },
+                        RPc::Took => {
+                            let nx = s.verif_next_load();
+                            rpc = RPc::Loaded(nx);
+                            format!("L{nx}")
+                        }
+                        RPc::Loaded(nx) => {
+                            s.verif_waiting_wake(nx);
+                            rpc = RPc::Idle;
+                            "K".into()
+                        }
+                    }
+                } else {
+                    let k: usize = tok.parse().unwrap();
+                    let idx = base + k;
+                    let is_close = k >= n;
+                    let cx = Context::from_waker(&wakers[k]);
+                    match pcs[k] {
+                        Pc::Fresh | Pc::WaitTurn | Pc::WaitSpace | Pc::Polling => {
+                            let c = s.verif_next_load();
+                            pcs[k] = Pc::Loaded(c);
+                            format!("L{c}")
+                        }
+                        Pc::Loaded(c) if c > idx => {
+                            pcs[k] = Pc::Panicked;
+                            "X".into()
+                        }
+                        Pc::Loaded(c) if c == idx => {
+                            let r = if is_close {
+                                guarded(|| {
+                                    s.verif_state_close();
+                                    Poll::Ready(())
+                                })
+                            } else {
+                                guarded(|| state_write(&s, &msg_for(idx, ws), &cx))
+                            };
+                            match r {
+                                Ok(Poll::Ready(())) => {
+                                    pcs[k] = Pc::Wrote;
+                                    "C:R".into()
+                                }
+                                Ok(Poll::Pending) => {
+                                    pcs[k] = Pc::WaitSpace;
+                                    "C:P".into()
+                                }
+                                Err(p) => {
+                                    pcs[k] = Pc::Panicked;
+                                    tag(&p)
+                                }
+                            }
+                        }
+                        Pc::Loaded(c) => {
+                            if s.verif_waiting_add(c, idx, &wakers[k]) {
+                                pcs[k] = Pc::WaitTurn;
+                                "A+".into()
+                            } else {
+                                pcs[k] = Pc::Polling;
+                                "A-".into()
+                            }
+                        }
+                        Pc::Wrote => {
+                            let prev = s.verif_next_fetch_add();
+                            if prev == idx {
+                                pcs[k] = if is_close { Pc::Done } else { Pc::Incd };
+                                format!("F{prev}")
+                            } else {
+                                pcs[k] = Pc::Panicked;
+                                format!("X:F{prev}")
+                            }
+                        }
+                        Pc::Incd => {
+                            s.verif_waiting_wake(idx + 1);
+                            pcs[k] = Pc::Done;
+                            "K".into()
+                        }
+                        Pc::Done | Pc::Panicked => "-".into(),
+                    }
+                };
+                out.push(format!("{obs}|{}", drain(&log)));
+            }
+        }
+        let w: Vec<String> = s.verif_woken_at().iter().map(ToString::to_string).collect();
+        format!("{};N={};W={}", if out.is_empty() { "-".into() } else { out.join(",") }, s.verif_next_load(), w.join("."))
+    }
+
+    // ---- generator: an abstract copy of the access protocol, used only to enumerate schedules ----
+    #[derive(Clone, PartialEq, Eq, Hash, PartialOrd, Ord)]
+    struct G {
+        next: usize,
+        len: usize,
+        closed: bool,
+        write_ready: Option<usize>,
+        stream_ready: bool,
+        woken_at: [usize; 8],
+        wakers: Vec<usize>, // indices registered (sorted)
+        pcs: Vec<Pc>,
+        woken: Vec<bool>,
+        rpc: RPc,
+        rwoken: bool,
+        rpolled: bool,
+        rbudget: usize,
+    }
+
+    #[derive(Clone, Copy)]
+    struct Par {
+        cap: usize,
+        ws: usize,
+        rs: usize,
+        base: usize,
+        n: usize,
+        closer: usize,
+        spurious_reader: bool,
+    }
+
+    fn shard(i: usize) -> usize {
+        (i >> 6) % 8
+    }
+
+    impl G {
+        fn new(p: &Par, rbudget: usize) -> G {
+            let mut woken_at = [0usize; 8];
+            for j in 0..p.base {
+                // prefix: wake(j + 1) by the sender, wake(next = j + 1) by the reader
+                let sh = shard(j + 1);
+                woken_at[sh] = woken_at[sh].max(j + 1);
+            }
+            G {
+                next: p.base,
+                len: 0,
+                closed: false,
+                write_ready: None,
+                stream_ready: false,
+                woken_at,
+                wakers: vec![],
+                pcs: vec![Pc::Fresh; p.n + p.closer],
+                woken: vec![false; p.n + p.closer],
+                rpc: RPc::Idle,
+                rwoken: false,
+                rpolled: false,
+                rbudget,
+            }
+        }
+        fn can_read(&self, p: &Par) -> bool {
+            (self.closed && self.len > 0) || self.len >= p.rs
+        }
+        fn can_write(&self, p: &Par) -> bool {
+            !self.closed && p.cap - self.len >= p.ws
+        }
+        fn holds(&self) -> bool {
+            matches!(self.rpc, RPc::Took | RPc::Loaded(_))
+        }
+        /// tokens enabled in this state (a parked task only when it has been woken)
+        fn enabled(&self, p: &Par) -> Vec<usize> {
+            let mut en = vec![];
+            for (k, pc) in self.pcs.iter().enumerate() {
+                let ok = match pc {
+                    Pc::Fresh | Pc::Polling | Pc::Wrote | Pc::Incd => true,
+                    Pc::Loaded(c) => *c != p.base + k || !self.holds(),
+                    Pc::WaitTurn | Pc::WaitSpace => self.woken[k],
+                    Pc::Done | Pc::Panicked => false,
+                };
+                if ok {
+                    en.push(k);
+                }
+            }
+            let r_ok = match self.rpc {
+                RPc::Took | RPc::Loaded(_) => true,
+                RPc::Idle | RPc::Finished => {
+                    self.rbudget > 0 && self.rpc != RPc::Finished && (!self.rpolled || self.rwoken || p.spurious_reader)
+                }
+            };
+            if r_ok {
+                en.push(99);
+            }
+            en
+        }
+        fn wake(&mut self, p: &Par, j: usize) {
+            let sh = shard(j);
+            self.woken_at[sh] = self.woken_at[sh].max(j);
+            // entries of the same shard below j are dropped only if j itself is registered
+            if self.wakers.contains(&j) {
+                self.wakers.retain(|&x| !(shard(x) == sh && x <= j));
+                let k = j - p.base;
+                if k < self.woken.len() {
+                    self.woken[k] = true;
+                }
+            }
+        }
+        fn step(&mut self, p: &Par, tok: usize) {
+            if tok == 99 {
+                match self.rpc.clone() {
+                    RPc::Idle | RPc::Finished => {
+                        self.rbudget -= 1;
+                        self.rpolled = true;
+                        self.rwoken = false;
+                        if self.can_read(p) {
+                            let cw = self.can_write(p);
+                            self.len -= p.rs.min(self.len);
+                            if !cw {
+                                if let Some(k) = self.write_ready.take() {
+                                    self.woken[k] = true;
+                                }
+                            }
+                            self.rpc = RPc::Took;
+                        } else {
+                            self.stream_ready = true;
+                            self.rpc = if self.closed { RPc::Finished } else { RPc::Idle };
+                        }
+                    }
+                    RPc::Took => self.rpc = RPc::Loaded(self.next),
+                    RPc::Loaded(nx) => {
+                        self.wake(p, nx);
+                        self.rpc = RPc::Idle;
+                    }
+                }
+                return;
+            }
+            let k = tok;
+            let idx = p.base + k;
+            let is_close = k >= p.n;
+            match self.pcs[k] {
+                Pc::Fresh | Pc::WaitTurn | Pc::WaitSpace => {
+                    self.woken[k] = false;
+                    self.pcs[k] = Pc::Loaded(self.next);
+                }
+                Pc::Polling => self.pcs[k] = Pc::Loaded(self.next),
+                Pc::Loaded(c) if c > idx => self.pcs[k] = Pc::Panicked,
+                Pc::Loaded(c) if c == idx => {
+                    if is_close {
+                        self.closed = true;
+                        if self.stream_ready {
+                            self.stream_ready = false;
+                            self.rwoken = true;
+                        }
+                        self.pcs[k] = Pc::Wrote;
+                    } else if self.closed {
+                        self.pcs[k] = Pc::Panicked;
+                    } else if !self.can_write(p) {
+                        self.write_ready = Some(k);
+                        self.pcs[k] = Pc::WaitSpace;
+                    } else {
+                        self.len += p.ws;
+                        if self.can_read(p) && self.stream_ready {
+                            self.stream_ready = false;
+                            self.rwoken = true;
+                        }
+                        self.pcs[k] = Pc::Wrote;
+                    }
+                }
+                Pc::Loaded(c) => {
+                    if c < self.woken_at[shard(idx)] {
+                        self.pcs[k] = Pc::Polling;
+                    } else {
+                        if !self.wakers.contains(&idx) {
+                            self.wakers.push(idx);
+                            self.wakers.sort_unstable();
+                        }
+                        self.pcs[k] = Pc::WaitTurn;
+                    }
+                }
+                Pc::Wrote => {
+                    self.next += 1;
+                    self.pcs[k] = if is_close { Pc::Done } else { Pc::Incd };
+                }
+                Pc::Incd => {
+                    self.wake(p, idx + 1);
+                    self.pcs[k] = Pc::Done;
+                }
+                Pc::Done | Pc::Panicked => {}
+            }
+        }
+    }
+
+    fn tok_str(t: usize) -> String {
+        if t == 99 { "r".into() } else { t.to_string() }
+    }
+
+    fn request(p: &Par, sched: &[usize]) -> String {
+        let s: Vec<String> = sched.iter().map(|&t| tok_str(t)).collect();
+        format!(
+            "c14.atomic {} {} {} {} {} {} {}",
+            p.cap, p.ws, p.rs, p.base, p.n, p.closer,
+            if s.is_empty() { "-".to_string() } else { s.join(".") }
+        )
+    }
+
+    /// every maximal interleaving (depth-first), up to `limit` schedules
+    fn all_paths(p: &Par, rbudget: usize, limit: usize, out: &mut Vec<String>) {
+        fn go(p: &Par, g: &G, cur: &mut Vec<usize>, limit: usize, count: &mut usize, out: &mut Vec<String>) {
+            if *count >= limit {
+                return;
+            }
+            let en = g.enabled(p);
+            if en.is_empty() || cur.len() >= 80 {
+                out.push(request(p, cur));
+                *count += 1;
+                return;
+            }
+            for t in en {
+                let mut g2 = g.clone();
+                g2.step(p, t);
+                cur.push(t);
+                go(p, &g2, cur, limit, count, out);
+                cur.pop();
+            }
+        }
+        let mut count = 0;
+        go(p, &G::new(p, rbudget), &mut vec![], limit, &mut count, out);
+    }
+
+    /// run to quiescence, always the lowest (or highest) enabled token
+    fn complete(p: &Par, g: &mut G, cur: &mut Vec<usize>, high: bool) {
+        while cur.len() < 120 {
+            let en = g.enabled(p);
+            let Some(&t) = (if high { en.last() } else { en.first() }) else { break };
+            g.step(p, t);
+            cur.push(t);
+        }
+    }
+
+    /// one schedule through every (reachable abstract state, enabled token) pair
+    fn all_transitions(p: &Par, rbudget: usize, out: &mut Vec<String>) -> usize {
+        let g0 = G::new(p, rbudget);
+        let mut seen: BTreeMap<G, Vec<usize>> = BTreeMap::new();
+        let mut queue = VecDeque::new();
+        seen.insert(g0.clone(), vec![]);
+        queue.push_back(g0);
+        let mut edges = 0;
+        while let Some(g) = queue.pop_front() {
+            let path = seen[&g].clone();
+            for t in g.enabled(p) {
+                let mut g2 = g.clone();
+                g2.step(p, t);
+                let mut cur = path.clone();
+                cur.push(t);
+                let mut g3 = g2.clone();
+                let mut full = cur.clone();
+                complete(p, &mut g3, &mut full, edges % 2 == 1);
+                out.push(request(p, &full));
+                edges += 1;
+                if !seen.contains_key(&g2) && seen.len() < 200_000 {
+                    seen.insert(g2.clone(), cur);
+                    queue.push_back(g2);
+                }
+            }
+        }
+        edges
+    }
+
+    fn random_paths(p: &Par, rbudget: usize, count: usize, rng: &mut Rng, out: &mut Vec<String>) {
+        for _ in 0..count {
+            let mut g = G::new(p, rbudget);
+            let mut cur = vec![];
+            // sticky scheduling: keep running the same task with probability 1/2 (few preemptions)
+            let mut last: Option<usize> = None;
+            while cur.len() < 120 {
+                let en = g.enabled(p);
+                if en.is_empty() {
+                    break;
+                }
+                let t = match last {
+                    Some(l) if en.contains(&l) && rng.bool() => l,
+                    _ => *rng.pick(&en),
+                };
+                g.step(p, t);
+                cur.push(t);
+                last = Some(t);
+            }
+            out.push(request(p, &cur));
+        }
+    }
+
+    pub fn generate(rng: &mut Rng, thorough: bool) -> Vec<String> {
+        let mut out = vec![];
+        let par = |cap, ws, rs, base, n, closer| Par { cap, ws, rs, base, n, closer, spurious_reader: false };
+        // the schedule of the independent mutation tester (i = 0): T1 = send(0) stops between
+        // fetch_add and wake(1); T3 = send(2) stops after loading next = 1; T2 = send(1) runs a whole
+        // poll (wake(2)); T1's late wake(1); T3's add(curr = 1, i = 2) must be rejected
+        out.push("c14.atomic 8 1 1 0 3 0 0.0.0.1.2.1.1.1.0.2.2.2.2.2".into());
+        out.push("c14.atomic 8 1 1 64 3 0 0.0.0.1.2.1.1.1.0.2.2.2.2.2".into());
+        out.push("c14.atomic 8 1 1 62 3 0 0.0.0.1.2.1.1.1.0.2.2.2.2.2".into());
+        out.push("c14.atomic 8 1 1 0 0 0 -".into());
+        // ≤ 3 senders, roomy buffer, no reader: EVERY interleaving of their atomic steps
+        for n in 1..=3 {
+            all_paths(&par(8, 1, 1, 0, n, 0), 0, usize::MAX, &mut out);
+        }
+        // 2 senders + the reader's take/load/wake(next) once: every interleaving
+        all_paths(&par(8, 1, 1, 0, 2, 0), 1, usize::MAX, &mut out);
+        // 2 senders + closer: every interleaving
+        all_paths(&par(8, 1, 1, 0, 2, 1), 0, usize::MAX, &mut out);
+        // 3 senders + reader (2 polls); straddling the shard boundary (indices 62..65 / 63..66);
+        // a one-message buffer (writers blocked on space, woken by the reader); closer + reader:
+        // every transition of the abstract state graph, then random walks
+        let mut cfgs = vec![
+            (par(8, 1, 1, 0, 3, 0), 2usize),
+            (par(8, 1, 1, 62, 3, 0), 0),
+            (par(8, 1, 1, 63, 3, 0), 1),
+            (par(1, 1, 1, 0, 2, 0), 3),
+            (par(2, 2, 2, 0, 3, 0), 4),
+            (par(4, 2, 4, 0, 3, 1), 3),
+            (par(2, 1, 2, 0, 2, 1), 3),
+        ];
+        if thorough {
+            cfgs.push((par(8, 1, 1, 0, 4, 0), 0));
+            cfgs.push((par(8, 1, 1, 61, 4, 0), 1));
+            cfgs.push((par(2, 1, 1, 0, 4, 1), 4));
+            cfgs.push((par(8, 1, 1, 0, 3, 0), 3));
+        }
+        for (p, rb) in &cfgs {
+            all_transitions(p, *rb, &mut out);
+        }
+        for (p, rb) in &cfgs {
+            random_paths(p, *rb, if thorough { 4000 } else { 250 }, rng, &mut out);
+            let mut sp = *p;
+            sp.spurious_reader = true;
+            random_paths(&sp, *rb + 1, if thorough { 1000 } else { 60 }, rng, &mut out);
+        }
+        if thorough {
+            // 4 senders: the first 400 000 interleavings in depth-first order plus random walks
+            all_paths(&par(8, 1, 1, 0, 4, 0), 0, 400_000, &mut out);
+            random_paths(&par(8, 1, 1, 0, 4, 0), 0, 50_000, rng, &mut out);
+            random_paths(&par(8, 1, 1, 0, 5, 1), 2, 20_000, rng, &mut out);
+        }
+        out
+    }
+
+    #[test]
+    fn verif_c14_atomic() {
+        run_suite("c14_atomic", generate, exec);
+    }
+}
